@@ -120,9 +120,19 @@ func (g *wgen) groupPod(gg *ggen, node string, opts ...podOpt) *v1.Pod {
 		return p
 	}
 	if g.p(0.25) {
-		p.Spec.Affinity = &v1.Affinity{NodeAffinity: &v1.NodeAffinity{RequiredDuringSchedulingIgnoredDuringExecution: &v1.NodeSelector{
-			NodeSelectorTerms: []v1.NodeSelectorTerm{{MatchExpressions: []v1.NodeSelectorRequirement{
-				{Key: gg.o.LabelKey, Operator: v1.NodeSelectorOpIn, Values: []string{"zz", gg.o.LabelValue}}}}}}}}
+		match := v1.NodeSelectorRequirement{Key: gg.o.LabelKey, Operator: v1.NodeSelectorOpIn, Values: []string{"zz", gg.o.LabelValue}}
+		miss := v1.NodeSelectorRequirement{Key: gg.o.LabelKey, Operator: v1.NodeSelectorOpIn, Values: []string{"zz-elsewhere"}}
+		other := v1.NodeSelectorRequirement{Key: "disk", Operator: v1.NodeSelectorOpIn, Values: []string{"ssd"}}
+		terms := []v1.NodeSelectorTerm{{MatchExpressions: []v1.NodeSelectorRequirement{match}}}
+		switch g.rng.Intn(6) {
+		case 0: // ORed terms: the first one names the key with another value, the second selects the group
+			terms = []v1.NodeSelectorTerm{{MatchExpressions: []v1.NodeSelectorRequirement{miss, other}}, {MatchExpressions: []v1.NodeSelectorRequirement{match}}}
+		case 1: // one term, two expressions on the key: the first misses, the second lists the value
+			terms = []v1.NodeSelectorTerm{{MatchExpressions: []v1.NodeSelectorRequirement{miss, match}}}
+		case 2: // an unrelated expression first, an empty term first
+			terms = []v1.NodeSelectorTerm{{}, {MatchExpressions: []v1.NodeSelectorRequirement{other, match}}}
+		}
+		p.Spec.Affinity = &v1.Affinity{NodeAffinity: &v1.NodeAffinity{RequiredDuringSchedulingIgnoredDuringExecution: &v1.NodeSelector{NodeSelectorTerms: terms}}}
 	} else {
 		p.Spec.NodeSelector = map[string]string{gg.o.LabelKey: gg.o.LabelValue}
 	}
